@@ -153,6 +153,7 @@ class _Skel(object):
         self.slots = {}          # variable name -> slot number
         self.n_mk = 0
         self.cleaned = set()
+        self.alias = {}          # loop variable -> the name it stands for
         self.scratch_params = scratch_params
         self.output_exprs = output_exprs
 
@@ -220,6 +221,8 @@ class _Skel(object):
             if isinstance(c, ast.Call) and isinstance(c.func, ast.Name) \
                     and c.func.id == '_clean_up' and len(c.args) == 1:
                 a = c.args[0]
+                if isinstance(a, ast.Name) and a.id in self.alias:
+                    a = ast.Name(id=self.alias[a.id])
                 if isinstance(a, ast.Name) and a.id in self.slots:
                     self.cleaned.add(self.slots[a.id])
                     return [('clean', self.slots[a.id])]
@@ -233,7 +236,18 @@ class _Skel(object):
             return [('call',)] if self._may_raise(c) else []
         if isinstance(s, ast.Try):
             body = self.stmts(s.body)
+            only_cleans = bool(body) and all(x[0] == 'clean' for x in body)
             for h in s.handlers:
+                if only_cleans:
+                    # `_clean_up` does not raise in the model (documented
+                    # assumption): a handler around clean-ups alone is dead
+                    # code, whatever it does -- as long as it handles no
+                    # resources itself
+                    hb = self.stmts(h.body)
+                    if any(x[0] in ('mk', 'clean') for x in _flat(hb)):
+                        raise TranslateError('%s: resources handled in an '
+                                             'except clause' % self.fn.name)
+                    continue
                 hb = self.stmts(h.body)
                 if any(x[0] in ('mk', 'clean') for x in _flat(hb)):
                     raise TranslateError('%s: resources handled in an '
@@ -260,6 +274,19 @@ class _Skel(object):
             if not a and not b:
                 return [('call',)] if self._may_raise(s.test) else []
             return [('ite', a, b)]
+        if isinstance(s, ast.For) and isinstance(s.target, ast.Name) \
+                and isinstance(s.iter, (ast.Tuple, ast.List)) \
+                and s.iter.elts \
+                and all(isinstance(e, ast.Name) for e in s.iter.elts) \
+                and any(e.id in self.slots for e in s.iter.elts) \
+                and not s.orelse:
+            # `for d in (tmp_a, tmp_b): ...` over scratch variables: unrolled
+            out = []
+            for e in s.iter.elts:
+                self.alias[s.target.id] = e.id
+                out += self.stmts(s.body)
+            self.alias.pop(s.target.id, None)
+            return out
         if isinstance(s, (ast.For, ast.While)):
             b = self.stmts(s.body)
             if s.orelse:
